@@ -33,6 +33,10 @@ pub enum Step {
 pub struct Plan {
     pub buffer: Option<usize>,
     pub steps: Vec<Step>,
+    /// the application keeps only the metric handles it registered at start-up and lets the
+    /// recorder value go out of scope: the handles (and the transport behind them) live on
+    #[serde(default)]
+    pub drop_recorder: bool,
 }
 
 #[derive(Clone, Debug)]
@@ -192,7 +196,23 @@ impl Scenario for C11Tcp {
             steps.push(Step::ReadAll { client: b });
             steps.push(Step::Idle);
         }
-        Plan { buffer, steps }
+        let drop_recorder = r.chance(50);
+        if drop_recorder {
+            // nothing can be described without the recorder
+            steps.retain(|s| !matches!(s, Step::Describe { .. }));
+            for s in steps.iter_mut() {
+                if let Step::Burst { per_thread } = s {
+                    for ops in per_thread.iter_mut() {
+                        for op in ops.iter_mut() {
+                            if op.1 >= 6 {
+                                op.1 = 0;
+                            }
+                        }
+                    }
+                }
+            }
+        }
+        Plan { buffer, steps, drop_recorder }
     }
     fn execute(&self, plan: &Plan, sched: &SchedSpec) -> RunReport {
         let net = crate::simnet::install(sched.faults.clone());
@@ -212,6 +232,15 @@ impl Scenario for C11Tcp {
                     return;
                 }
             };
+            // handles registered at start-up (used for every emission once the recorder value is gone)
+            let handles: Arc<Vec<(metrics::Counter, metrics::Gauge, metrics::Histogram)>> =
+                Arc::new((0..3).map(|m| (rec.register_counter(&key_of(m), &MD), rec.register_gauge(&key_of(m), &MD), rec.register_histogram(&key_of(m), &MD))).collect());
+            let rec: Option<Arc<metrics_exporter_tcp::TcpRecorder>> = if p.drop_recorder {
+                drop(rec);
+                None
+            } else {
+                Some(rec)
+            };
             let idle = || dsim::sleep(1_000_000);
             idle();
             let mut burst_no = 0usize;
@@ -228,6 +257,10 @@ impl Scenario for C11Tcp {
                     Step::Describe { m, unit } => {
                         let u = if *unit { Some(Unit::Bytes) } else { None };
                         let kn = KeyName::from_const_str(NAMES[*m]);
+                        let rec = match &rec {
+                            Some(r) => r,
+                            None => continue,
+                        };
                         match m {
                             0 => rec.describe_counter(kn, u, "desc".into()),
                             1 => rec.describe_gauge(kn, u, "desc".into()),
@@ -247,6 +280,7 @@ impl Scenario for C11Tcp {
                         for ops in per_thread {
                             let ops = ops.clone();
                             let rec = rec.clone();
+                            let handles = handles.clone();
                             let emits = e2.clone();
                             let descs = d2.clone();
                             let bn = burst_no;
@@ -260,6 +294,10 @@ impl Scenario for C11Tcp {
                                     if *kind >= 6 {
                                         let u = if *kind == 7 { Some(Unit::Bytes) } else { None };
                                         let kn = KeyName::from_const_str(NAMES[*m]);
+                                        let rec = match &rec {
+                                            Some(r) => r,
+                                            None => continue,
+                                        };
                                         match m {
                                             0 => rec.describe_counter(kn, u, "desc".into()),
                                             1 => rec.describe_gauge(kn, u, "desc".into()),
@@ -268,13 +306,19 @@ impl Scenario for C11Tcp {
                                         descs.lock().unwrap().push((si, *m, *kind == 7));
                                         continue;
                                     }
-                                    match kind {
-                                        0 => rec.register_counter(&key, &MD).increment(tag),
-                                        1 => rec.register_counter(&key, &MD).absolute(tag),
-                                        2 => rec.register_gauge(&key, &MD).increment(tag as f64),
-                                        3 => rec.register_gauge(&key, &MD).decrement(tag as f64),
-                                        4 => rec.register_gauge(&key, &MD).set(tag as f64),
-                                        _ => rec.register_histogram(&key, &MD).record(tag as f64),
+                                    match (&rec, kind) {
+                                        (Some(rec), 0) => rec.register_counter(&key, &MD).increment(tag),
+                                        (Some(rec), 1) => rec.register_counter(&key, &MD).absolute(tag),
+                                        (Some(rec), 2) => rec.register_gauge(&key, &MD).increment(tag as f64),
+                                        (Some(rec), 3) => rec.register_gauge(&key, &MD).decrement(tag as f64),
+                                        (Some(rec), 4) => rec.register_gauge(&key, &MD).set(tag as f64),
+                                        (Some(rec), _) => rec.register_histogram(&key, &MD).record(tag as f64),
+                                        (None, 0) => handles[*m].0.increment(tag),
+                                        (None, 1) => handles[*m].0.absolute(tag),
+                                        (None, 2) => handles[*m].1.increment(tag as f64),
+                                        (None, 3) => handles[*m].1.decrement(tag as f64),
+                                        (None, 4) => handles[*m].1.set(tag as f64),
+                                        (None, _) => handles[*m].2.record(tag as f64),
                                     }
                                     emits.lock().unwrap().push(Emit { tid, m: *m, kind: *kind, tag, burst: bn, inv });
                                 }
@@ -356,7 +400,10 @@ impl Scenario for C11Tcp {
             for k in 0..n_final {
                 let tag = ((burst_no as u64) << 32) | ((tid as u64) << 16) | (k as u64 + 1);
                 let inv = dsim::step();
-                rec.register_counter(&key_of(0), &MD).increment(tag);
+                match &rec {
+                    Some(rec) => rec.register_counter(&key_of(0), &MD).increment(tag),
+                    None => handles[0].0.increment(tag),
+                }
                 e2.lock().unwrap().push(Emit { tid, m: 0, kind: 0, tag, burst: burst_no, inv });
             }
             idle();
